@@ -419,8 +419,29 @@ func TestC05Handle(t *testing.T) {
 			if len(m.Values) == 0 {
 				rt.Skip("no values")
 			}
-			m.Values = nil
-			field, how = "values", "removed"
+			switch rapid.IntRange(0, 2).Draw(rt, "missingHow") {
+			case 0:
+				m.Values = nil
+				field, how = "values", "removed"
+			default:
+				// validly re-signed top-level message that references a value which is not attached
+				// (in value_hash or prepared_value_hash), without justifications that reference it too
+				cl := proto.Clone(m.Msg).(*pbv1.QBFTMsg)
+				ghost := sha256.Sum256([]byte(fmt.Sprintf("unattached-%d", rapid.IntRange(0, 1000).Draw(rt, "ghost"))))
+				if rapid.Bool().Draw(rt, "ghostPrepared") {
+					cl.PreparedValueHash = ghost[:]
+					if cl.PreparedRound == 0 {
+						cl.PreparedRound = 1
+					}
+					how = "resigned_prepared_value_unattached"
+				} else {
+					cl.ValueHash = ghost[:]
+					how = "resigned_value_unattached"
+				}
+				m.Msg = resign(cl, keys[cl.PeerIdx])
+				m.Justification = nil
+				field = "values"
+			}
 		case kind == 13: // referenced value bytes / type url altered
 			if len(m.Values) == 0 {
 				rt.Skip("no values")
@@ -504,6 +525,10 @@ func TestC05Handle(t *testing.T) {
 				rt.Skip("bytes decode to the unaltered message")
 			} else if semanticallySame(m, b.msg) {
 				rt.Skip("only unreferenced / unknown parts differ")
+			} else if partsSubset(m, b.msg) {
+				// a flipped tag or length can turn a whole justification (or value) into an unknown field:
+				// what is left consists of unaltered, validly signed parts — no signed field was altered
+				rt.Skip("whole parts dropped, the remaining ones are unaltered")
 			}
 			field, how = "raw", "bytes"
 		}
@@ -522,7 +547,7 @@ func TestC05Handle(t *testing.T) {
 		}()
 		inst, buf := bufState(c)
 		if herr == nil {
-			rt.Fatalf("ACCEPTED: altered %s message (%s.%s, %s) was accepted by handle: %v", shape, level, field, how, m)
+			rt.Fatalf("ACCEPTED: altered %s message (%s.%s, %s) was accepted by handle: %v\n differs from the valid message in: %s", shape, level, field, how, m, diffParts(m, b.msg))
 		}
 		if inst != 0 || buf != 0 {
 			rt.Fatalf("STATE TOUCHED: rejected %s message (%s.%s, %s; err %v) left instances=%d buffered=%d", shape, level, field, how, herr, inst, buf)
@@ -586,4 +611,69 @@ func (c *Consensus) getRecvBufferForVerif(duty core.Duty) chan Msg {
 		return inst.RecvBuffer
 	}
 	return nil
+}
+
+// diffParts names the parts in which two wire messages differ (for failure reports).
+func diffParts(a, b *pbv1.QBFTConsensusMsg) string {
+	var out []string
+	if !proto.Equal(a.GetMsg(), b.GetMsg()) {
+		out = append(out, fmt.Sprintf("msg (%v vs %v)", a.GetMsg(), b.GetMsg()))
+	}
+	if len(a.GetJustification()) != len(b.GetJustification()) {
+		out = append(out, fmt.Sprintf("justification count %d vs %d", len(a.GetJustification()), len(b.GetJustification())))
+	} else {
+		for i := range a.GetJustification() {
+			if !proto.Equal(a.GetJustification()[i], b.GetJustification()[i]) {
+				out = append(out, fmt.Sprintf("justification[%d] (%v vs %v)", i, a.GetJustification()[i], b.GetJustification()[i]))
+			}
+		}
+	}
+	if len(a.GetValues()) != len(b.GetValues()) {
+		out = append(out, fmt.Sprintf("value count %d vs %d", len(a.GetValues()), len(b.GetValues())))
+	} else {
+		for i := range a.GetValues() {
+			if !proto.Equal(a.GetValues()[i], b.GetValues()[i]) {
+				out = append(out, fmt.Sprintf("values[%d] (%d vs %d bytes, type %q vs %q)", i, len(a.GetValues()[i].GetValue()), len(b.GetValues()[i].GetValue()), a.GetValues()[i].GetTypeUrl(), b.GetValues()[i].GetTypeUrl()))
+			}
+		}
+	}
+	if len(a.ProtoReflect().GetUnknown()) != len(b.ProtoReflect().GetUnknown()) {
+		out = append(out, "unknown fields")
+	}
+	return strings.Join(out, "; ")
+}
+
+// partsSubset reports whether a consists of b's top-level message and a sub-multiset of b's
+// justifications and values, each unaltered.
+func partsSubset(a, b *pbv1.QBFTConsensusMsg) bool {
+	if a.GetMsg() == nil || !proto.Equal(a.GetMsg(), b.GetMsg()) {
+		return false
+	}
+	usedJ := make([]bool, len(b.GetJustification()))
+	for _, j := range a.GetJustification() {
+		found := false
+		for i, o := range b.GetJustification() {
+			if !usedJ[i] && j != nil && proto.Equal(j, o) {
+				usedJ[i], found = true, true
+				break
+			}
+		}
+		if !found {
+			return false
+		}
+	}
+	usedV := make([]bool, len(b.GetValues()))
+	for _, v := range a.GetValues() {
+		found := false
+		for i, o := range b.GetValues() {
+			if !usedV[i] && v != nil && proto.Equal(v, o) {
+				usedV[i], found = true, true
+				break
+			}
+		}
+		if !found {
+			return false
+		}
+	}
+	return true
 }
